@@ -158,59 +158,91 @@ def countdown(repo, res, canon, g, dur):
         return
     lp = loops[0]
     inside = {id(n) for n in ast.walk(lp)}
-    # counter candidates: names decremented by one inside the loop
+    # loop variants: locals stepped by one (down or up) inside the loop
     cands = {}
     for p in cached_paths(g):
         for e in p.events:
             if e.node is not None and id(e.node) in inside:
                 for ef in effects_of_event(canon, e):
-                    if ef.kind == 'aug-' and ef.arg == '1' and ef.loc.isidentifier():
-                        cands[ef.loc] = True
+                    if ef.kind in ('aug-', 'aug+') and ef.arg == '1' and ef.loc.isidentifier():
+                        cands[ef.loc] = -1 if ef.kind == 'aug-' else 1
     if not cands:
         res.bad('C07.B2', g, lp, what, 'the loop has no countdown: its number of steps is not tied to the duration')
         return
-    want = Affine({dur: 1}, -1)
+    want = Affine({dur: 1}, -1)          # continuing cycles: duration - 1 (the last deposit leaves the loop)
     best_why = ''
+
+    def guard_of(seg, cname):
+        """[(normalised op with the variant on the left, bound Affine, test dump)] of the tests of the
+        variant on this segment, polarity applied"""
+        out = []
+        for e in seg:
+            if e.kind != 'test':
+                continue
+            t, pol = e.node, bool(e.pol)
+            while isinstance(t, ast.UnaryOp) and isinstance(t.op, ast.Not):
+                t, pol = t.operand, not pol
+            if not (isinstance(t, ast.Compare) and len(t.ops) == 1):
+                continue
+            l, r = t.left, t.comparators[0]
+            op = {ast.Lt: '<', ast.LtE: '<=', ast.Gt: '>', ast.GtE: '>='}.get(type(t.ops[0]))
+            if op is None:
+                continue
+            if isinstance(r, ast.Name) and r.id == cname and not (isinstance(l, ast.Name) and l.id == cname):
+                l, r = r, l
+                op = {'<': '>', '<=': '>=', '>': '<', '>=': '<='}[op]
+            if not (isinstance(l, ast.Name) and l.id == cname):
+                continue
+            if not pol:
+                op = {'<': '>=', '<=': '>', '>': '<=', '>=': '<'}[op]
+            out.append((op, affine(canon, r, fr)))
+        return out
     for cname in sorted(cands):
+        step = cands[cname]
+        aug = 'aug-' if step < 0 else 'aug+'
         ok = True
         why = ''
         inits = [n for n in walk_no_nested(g.node) if isinstance(n, ast.Assign) and any(
             isinstance(t, ast.Name) and t.id == cname for t in n.targets) and id(n) not in inside]
-        if len(inits) != 1 or affine(canon, inits[0].value, fr) != want:
-            ok, why = False, 'the countdown starts at %s, not duration - 1: the deposit runs a different number of times' % (
-                short(ast.unparse(inits[0].value)) if inits else '?')
-        pos = lit_lt(0, cname)
+        A0 = affine(canon, inits[0].value, fr) if len(inits) == 1 else None
+        if A0 is None:
+            ok, why = False, 'the loop variant %s is initialised %d times' % (cname, len(inits))
         n_back = n_exit = 0
         for seg, how in iteration_segments(g, lp):
             if how == 'raise':
                 continue
-            must = set()
-            for e in seg:
-                if e.kind == 'test':
-                    must |= logic.must(e.node, e.frame, e.pol)
+            guards = guard_of(seg, cname)
             decs = sum(1 for ef in path_effects(canon, seg)
-                       if ef.loc == cname and ef.kind == 'aug-' and ef.arg == '1')
+                       if ef.loc == cname and ef.kind == aug and ef.arg == '1')
             other = [ef for ef in path_effects(canon, seg)
-                     if ef.loc == cname and not (ef.kind == 'aug-' and ef.arg == '1')]
+                     if ef.loc == cname and not (ef.kind == aug and ef.arg == '1')]
             if other:
                 ok, why = False, 'the countdown is changed by `%s`' % short(ast.unparse(other[0].node))
+            # the guard under which a cycle continues, and the number of continuing cycles it allows
+            cont = [(op, B) for op, B in guards if (step < 0 and op in ('>', '>=')) or (step > 0 and op in ('<', '<='))]
             if how == 'back':
                 n_back += 1
-                if decs and pos not in must:
-                    ok, why = False, 'a cycle decrements the countdown without having tested `%s > 0`' % cname
-                elif decs > 1 or (pos in must and decs != 1):
+                if decs and not cont:
+                    ok, why = False, 'a cycle steps the countdown without having tested it against its bound'
+                elif decs > 1 or (cont and decs != 1):
                     ok, why = False, 'a continuing cycle decrements the countdown %d times' % decs
+                elif cont and A0 is not None:
+                    op, B = cont[0]
+                    count = (A0 - B) if step < 0 else (B - A0)
+                    if op in ('>=', '<='):
+                        count = count + Affine({}, 1)
+                    if count != want:
+                        ok, why = False, ('the countdown allows %r continuing cycles, not duration - 1: the deposit runs a '
+                                          'different number of times' % count)
                 ys = [y for e in seg if e.kind == 'stmt' for y in ast.walk(e.node) if isinstance(y, ast.Yield)]
                 if len(ys) != 1 or not (isinstance(ys[0].value, ast.Call) and call_name(ys[0].value) == 'timeout' and
                                         canon.c(ys[0].value.args[0], fr) in ('1', 'TIMESTEP')):
                     ok, why = False, 'a cycle of the loop does not sleep exactly one timestep'
             else:
                 n_exit += 1
-                if pos.neg() not in must:
-                    # leaving for another reason (the loop condition) is fine; leaving by the countdown
-                    # must be on counter <= 0
-                    if any(e.kind == 'test' and cname in ast.unparse(e.node) for e in seg):
-                        ok, why = False, 'the loop is left while `%s > 0` may still hold' % cname
+                if guards and cont:
+                    # leaving by the countdown must be on the negated guard
+                    ok, why = False, 'the loop is left while the countdown has not run out'
         if not n_back:
             ok, why = False, 'the loop never cycles'
         if ok:
